@@ -4,14 +4,14 @@ P = dict(
     memcheck_stride=dict(quick=50, thorough=40),
     level='exploration',
     technique='runtime monitoring: scripted test shells with per-test execution counters, an independent std::string model of filter acceptance and of the selection rule, '
-              'TestResult counters, a recording TestOutput parsed against the callback grammar, and a walk of the registry list after every reverse/shuffle; histories of several CommandLineTestRunner invocations on one registry, each judged against its own command line; histories of runs on one live registry driven through its own setters (setGroupFilters / setNameFilters independently of each other, unDoLastAddTest / addTest, reverse / shuffle, setRunIgnored), each run judged against the lists installed and the tests registered at that moment; filter modes requested once or repeatedly on the same TestFilter object, with a differential diagnosis against a filter on which each mode was requested once; ASan/UBSan build',
-    rule='cases: a registry (0..60 tests, thorough up to 400; group/name strings from a 16-word alphabet with many substring/equality/case relations; ignored and failing tests mixed) '
+              'TestResult counters, a recording TestOutput parsed against the callback grammar, and a walk of the registry list after every reverse/shuffle; histories of several CommandLineTestRunner invocations on one registry, each judged against its own command line; histories of runs on one live registry driven through its own setters (setGroupFilters / setNameFilters independently of each other, unDoLastAddTest / addTest, reverse / shuffle, setRunIgnored), each run judged against the lists installed and the tests registered at that moment; filter modes requested once or repeatedly on the same TestFilter object, with a differential diagnosis against a filter on which each mode was requested once; the string alphabet is a dimension: ASCII words, or words with bytes >= 0x80 (UTF-8 sequences, single Latin-1 bytes) built so that many filter / name pairs agree up to and including such a byte and differ after it - the (filter, target) pairs of that class that were judged are counted; ASan/UBSan build',
+    rule='cases: a registry (0..60 tests, thorough up to 400; group/name strings from a 20-word ASCII-centred alphabet with many substring/equality/case relations or - a quarter of the cases of the filter sections - from a 27-word non-ASCII alphabet ("caf\\xC3\\xA9" / "caf\\xC3\\xA8" / "caf\\xC3" / "caf", "\\xE2\\x82\\xAC" / "\\xE2\\x82\\xAD", "AB\\xFF" / "AB\\xFFA" / "AB\\xFFB", "\\xC3\\xA9" / "C)", 0x7F / 0x80 / 0xFF ...: pairs that share a prefix through a byte >= 0x80, or differ in a top bit only); ignored and failing tests mixed) '
          'driven through 1..3 repetitions with group/name filter lists (0..3 each, independent strict/invert flags), run-ignored, reverse, shuffle (boundary and random seeds, real rand() '
          'and hostile rand() values through the PlatformSpecificRand seam), either directly on TestRegistry or through CommandLineTestRunner with an argv, '
          'or through a history of 2..5 CommandLineTestRunner invocations on the same registry (each with its own argv: group / name filter lists present or absent, -ri, -b, -s, -r; '
          'each runner destroyed before the next one as RunAllTests does, or all kept alive), every repetition of every invocation judged against the filters of that invocation only; '
          'or through a setter history: 2..5 runs on one registry, before each run 0..3 operations out of {setGroupFilters(new non-empty list / NULL / the same list object again / the installed list after a mode was requested again on one of its filters or a filter was put in front), the same for setNameFilters, reverse, shuffle, unDoLastAddTest, addTest of a test that is not registered, setRunIgnored} - the two filter setters are called independently of each other; a quarter of the filters built for the direct sections get strictMatching() / invertMatching() called 1..3 times each in random interleaving; '
-         'four filter tables (one filter x target, two filters x target, group filter x name filter, one filter x target x {strictMatching() 0..3 times} x {invertMatching() 0..3 times} x 4 interleavings) are enumerated completely. '
+         'six filter tables (one filter x target, two filters x target, group filter x name filter, one filter x target x {strictMatching() 0..3 times} x {invertMatching() 0..3 times} x 4 interleavings; one filter x target over all 27 x 27 pairs of the non-ASCII alphabet x 4 modes x group/name role, two filters x target over its 8-word UTF-8 core) are enumerated completely. '
          'Non-trivial = at least one filter that accepts some and rejects some tests of the registry, or a reverse/shuffle of >= 3 tests (table cases: every cell); '
          'distinct by (number of tests, filter lists with flags and mode-request counts, sequence of order operations / run-ignored; for runner histories the sequence of these per invocation; for setter histories the sequence of operations and runs)',
     floor=dict(quick=20000, thorough=200000),
@@ -24,7 +24,9 @@ P = dict(
                'later_runs_after_name_filter_setter_alone_where_the_previous_list_decides_differently': 2500,
                'setter_group_list_replaced_by_NULL': 1500, 'setter_group_same_list_object_set_again': 1500, 'undo_last_add_between_runs': 2000, 'add_test_between_runs': 700,
                'mode_requested_on_a_filter_of_the_installed_list_and_list_set_again': 2000,
-               'filters_with_invertMatching_requested_an_even_number_of_times': 5000, 'filters_with_strictMatching_requested_more_than_once': 10000},
+               'filters_with_invertMatching_requested_an_even_number_of_times': 5000, 'filters_with_strictMatching_requested_more_than_once': 10000,
+               'cases_drawing_strings_from_the_non_ascii_alphabet': 12000, 'non_ascii_filter_x_target_pairs': 600000, 'non_ascii_filter_x_target_pairs:filter_text_occurs_in_target': 200000,
+               'non_ascii_substring_filter_x_target_pairs:diverge_after_a_shared_non_ascii_byte': 20000, 'group_or_name_strings_with_a_byte_above_0x7f_judged': 500000},
         thorough={'ops_shuffle': 150000, 'ops_reverse': 45000, 'configurations_with_discriminating_filter': 150000, 'repetitions_with_run_ignored': 45000, 'runner_invocations': 45000,
                   'runner_history_later_invocations': 96000, 'later_invocations_without_group_filters_after_one_with': 24000, 'later_invocations_without_name_filters_after_one_with': 24000,
                   'later_invocation_repetitions_where_leftover_filters_would_change_the_selection': 36000,
@@ -33,13 +35,17 @@ P = dict(
                   'later_runs_after_name_filter_setter_alone_where_the_previous_list_decides_differently': 30000,
                   'setter_group_list_replaced_by_NULL': 20000, 'setter_group_same_list_object_set_again': 20000, 'undo_last_add_between_runs': 25000, 'add_test_between_runs': 9000,
                   'mode_requested_on_a_filter_of_the_installed_list_and_list_set_again': 25000,
-                  'filters_with_invertMatching_requested_an_even_number_of_times': 70000, 'filters_with_strictMatching_requested_more_than_once': 140000},
+                  'filters_with_invertMatching_requested_an_even_number_of_times': 70000, 'filters_with_strictMatching_requested_more_than_once': 140000,
+                  'cases_drawing_strings_from_the_non_ascii_alphabet': 200000, 'non_ascii_filter_x_target_pairs': 15000000, 'non_ascii_filter_x_target_pairs:filter_text_occurs_in_target': 6000000,
+                  'non_ascii_substring_filter_x_target_pairs:diverge_after_a_shared_non_ascii_byte': 500000, 'group_or_name_strings_with_a_byte_above_0x7f_judged': 15000000},
     ),
     assumptions=[
         'group notifications: balance and nesting of start/end and "a test starts inside a group opened for its own group name" are judged; '
         'the number of group segments (one per maximal run of equal group names) is recorded as evidence only',
         'shuffle: any permutation is accepted (bias, or an element that never moves, is not a violation)',
         'command-line section uses only -g/-sg/-xg/-xsg/-n/-sn/-xn/-xsn/-ri/-b/-s<seed>/-r<n> with non-empty values that do not start with "-" (the parse itself is C12)',
+        'strings are byte strings: "substring" and "exact match" are judged byte-wise (std::string::find / ==) also for bytes >= 0x80; invalid UTF-8 (a lone 0xC3, 0xFF) is an ordinary byte string for the model '
+        'as it is for cpputest (no normalisation, no case folding); the string primitives themselves (StrNCmp / StrStr results, signs) are C03/C13 - here only what a filter accepts is judged',
         'separate-process mode (-p) is not exercised here (C11)',
         'runner histories: run-ignored is treated as sticky (once an invocation gave -ri, ignored tests of later invocations on that registry are expected to run: '
         'TestRegistry offers no way to switch it off and the property does not ask for one); the list order is carried over from invocation to invocation; '
